@@ -1278,6 +1278,11 @@ func (s *BgpServer) handleRouteRefresh(peer *peer, e *fsmMsg) {
 		peer.fsm.logger.Warn("ROUTE_REFRESH received but the capability wasn't advertised")
 		return
 	}
+	if !needToAdvertise(peer) {
+		// still deferring as the restarting speaker (RFC 4724 4.1): the peer gets
+		// the table when the End-of-RIB markers are in or the deferral timer fires
+		return
+	}
 	rfList := []bgp.Family{rf}
 	s.getBestFromLocalCallback(peer, rfList, true, true, func(paths []*table.Path, filtered []*table.Path) {
 		// withdraw what was advertised before and the export policy now rejects
@@ -2989,6 +2994,9 @@ func (s *BgpServer) softResetOut(addr string, family bgp.Family, deferral bool) 
 			} else {
 				continue
 			}
+		} else if !needToAdvertise(peer) {
+			// an operator's soft reset does not end the deferral of a restarting speaker
+			continue
 		}
 
 		s.getBestFromLocalCallback(peer, families, true, true, func(paths []*table.Path, filtered []*table.Path) {
